@@ -437,6 +437,14 @@ func runC01(sc C01Sc, c *kit.Case) *kit.Violation {
 			reachedHandler = true
 			c.Label("stored-item-get-or-put")
 		} else if d.Kind == "fill" {
+			// A maintenance pass sleeps for a minute when it is done, so each burst gets a pass of its own: start
+			// one, wait until it has a find_node on the wire (its bucket refresh is under way), then fill that bucket.
+			before := net1.NumQueries()
+			simnet.Go(sv.S.TableMaintainer)
+			waitFor(150*time.Millisecond, func() bool {
+				qs := net1.Queries()
+				return len(qs) > before && qs[len(qs)-1].Method == "find_node"
+			})
 			bucket := 0
 			qs := net1.Queries()
 			for j := len(qs) - 1; j >= 0; j-- {
